@@ -54,9 +54,20 @@ var c11Guards = []c11Guard{
 
 // c11Fresh lists constructs where an object is not yet visible to any other
 // goroutine, so its guarded fields may be touched without the lock.
+//
+// Keys name a parameter by POSITION ("param 0"; "recv" for the receiver), never
+// by its identifier, so that renaming it changes nothing.
 var c11Fresh = map[string]string{
-	"internal/metrics.(*Store).Add|param m":                          "the metric being registered belongs to the program version compiled in the same CompileAndRun call; its VM is started only after every Add returned and the store publishes it only at the end of Add",
-	"internal/runtime/compiler/codegen.(*codegen).VisitBefore|local m": "metric created by NewMetric in the same clause; appended to the compiled object, not yet running",
+	"internal/metrics.(*Store).Add|param 0": "the metric being registered belongs to the program version compiled in the same CompileAndRun call; its VM is started only after every Add returned and the store publishes it only at the end of Add",
+}
+
+// c11ParamSlot is the rename-proof name of a parameter position, used in
+// obligation keys and in the c11Fresh table.
+func c11ParamSlot(idx int) string {
+	if idx == -1 {
+		return "recv"
+	}
+	return fmt.Sprintf("param %d", idx)
 }
 
 type c11Access struct {
@@ -206,8 +217,183 @@ func (s *c11State) inAtomicCall(f *core.Func, e ast.Expr) bool {
 	if !ok || u.Op != token.AND {
 		return false
 	}
-	call, ok := pm[u].(*ast.CallExpr)
-	return ok && strings.HasPrefix(f.CalleeID(call), "sync/atomic.")
+	if call, ok := pm[u].(*ast.CallExpr); ok {
+		return strings.HasPrefix(f.CalleeID(call), "sync/atomic.")
+	}
+	return s.atomicPtrLocal(f, u)
+}
+
+// atomicPtrLocal reports whether addr (an `&x.f` expression) is the sole
+// initialiser of a local pointer every use of which is a direct argument of a
+// sync/atomic function: `p := &d.Value; atomic.AddInt64(p, delta)` is the same
+// access as `atomic.AddInt64(&d.Value, delta)`.
+func (s *c11State) atomicPtrLocal(f *core.Func, addr *ast.UnaryExpr) bool {
+	pm := s.parentMap(f)
+	var lhs ast.Expr
+	switch d := pm[addr].(type) {
+	case *ast.AssignStmt:
+		if d.Tok != token.DEFINE || len(d.Lhs) != len(d.Rhs) {
+			return false
+		}
+		for i, r := range d.Rhs {
+			if r == ast.Expr(addr) {
+				lhs = d.Lhs[i]
+			}
+		}
+	case *ast.ValueSpec:
+		if len(d.Names) != len(d.Values) {
+			return false
+		}
+		for i, r := range d.Values {
+			if r == ast.Expr(addr) {
+				lhs = d.Names[i]
+			}
+		}
+	}
+	id, ok := lhs.(*ast.Ident)
+	if !ok || id.Name == "_" {
+		return false
+	}
+	obj := f.Info().Defs[id]
+	if obj == nil {
+		return false
+	}
+	uses, okAll := 0, true
+	ast.Inspect(f.Body, func(n ast.Node) bool {
+		u, ok := n.(*ast.Ident)
+		if !ok || f.Info().Uses[u] != obj {
+			return true
+		}
+		uses++
+		var cur ast.Node = u
+		if pe, ok := pm[cur].(*ast.ParenExpr); ok {
+			cur = pe
+		}
+		call, ok := pm[cur].(*ast.CallExpr)
+		isArg := false
+		if ok {
+			for _, a := range call.Args {
+				if a == cur {
+					isArg = true
+				}
+			}
+		}
+		if !isArg || !strings.HasPrefix(f.CalleeID(call), "sync/atomic.") {
+			okAll = false
+		}
+		return true
+	})
+	return uses > 0 && okAll
+}
+
+// derivedOwner resolves a local that only ever holds an element of a guarded
+// container field of an object of type owner (`lv := m.LabelValues[i]`,
+// `for _, lv := range m.LabelValues`, `lv, ok := m.labelValuesMap[k]`) to the
+// expression naming that object (m) and the guard of the container.  ok is
+// false when some definition of the local is anything else, or when the
+// definitions name different objects.
+func (s *c11State) derivedOwner(f *core.Func, obj types.Object, owner string) (ast.Expr, *c11Guard, bool) {
+	if obj == nil {
+		return nil, nil, false
+	}
+	info := f.Info()
+	root := f
+	for root.Parent != nil {
+		root = root.Parent
+	}
+	container := func(e ast.Expr) (ast.Expr, *c11Guard) {
+		e = core.Unparen(e)
+		if ix, ok := e.(*ast.IndexExpr); ok {
+			e = core.Unparen(ix.X)
+		}
+		sel, ok := e.(*ast.SelectorExpr)
+		if !ok {
+			return nil, nil
+		}
+		sl := info.Selections[sel]
+		if sl == nil || sl.Kind() != types.FieldVal {
+			return nil, nil
+		}
+		fv, _ := sl.Obj().(*types.Var)
+		g := s.fields[fv]
+		if g == nil || g.Global || g.AnyOwner != "" || g.Typ != owner {
+			return nil, nil
+		}
+		return sel.X, g
+	}
+	var own ast.Expr
+	var guard *c11Guard
+	good, bad := 0, 0
+	note := func(e ast.Expr, indexed bool) {
+		var b ast.Expr
+		var g *c11Guard
+		if indexed {
+			// the right-hand side must be an element: container[...]
+			if _, ok := core.Unparen(e).(*ast.IndexExpr); ok {
+				b, g = container(e)
+			}
+		} else {
+			// range operand: the container itself
+			if _, ok := core.Unparen(e).(*ast.IndexExpr); !ok {
+				b, g = container(e)
+			}
+		}
+		if b == nil {
+			bad++
+			return
+		}
+		if own != nil && core.PathOf(own) != core.PathOf(b) {
+			bad++
+			return
+		}
+		own, guard = b, g
+		good++
+	}
+	ast.Inspect(root.Body, func(n ast.Node) bool {
+		switch x := n.(type) {
+		case *ast.AssignStmt:
+			for i, l := range x.Lhs {
+				if identObj(info, l) != obj {
+					continue
+				}
+				switch {
+				case len(x.Lhs) == len(x.Rhs):
+					note(x.Rhs[i], true)
+				case len(x.Rhs) == 1 && i == 0:
+					note(x.Rhs[0], true) // comma-ok map lookup
+				default:
+					bad++
+				}
+			}
+		case *ast.ValueSpec:
+			for i, nm := range x.Names {
+				if info.Defs[nm] != obj {
+					continue
+				}
+				if len(x.Values) == len(x.Names) {
+					note(x.Values[i], true)
+				} else if len(x.Values) != 0 {
+					bad++
+				}
+			}
+		case *ast.RangeStmt:
+			if x.Value != nil && identObj(info, x.Value) == obj {
+				note(x.X, false)
+			}
+			if x.Key != nil && identObj(info, x.Key) == obj {
+				bad++
+			}
+		case *ast.UnaryExpr:
+			if x.Op == token.AND && identObj(info, x.X) == obj {
+				bad++ // address taken: may be assigned through the pointer
+			}
+		}
+		return true
+	})
+	if good == 0 || bad > 0 {
+		return nil, nil, false
+	}
+	return own, guard, true
 }
 
 // accesses lists the guarded-field accesses inside f's own body (not its literals).
@@ -348,6 +534,22 @@ func c11FreshLocal(f *core.Func, obj types.Object) bool {
 	if obj == nil {
 		return false
 	}
+	// inside a goroutine literal an object captured from the spawner is shared with the spawner: not fresh any more
+	for cur := f; cur != nil && cur.Lit != nil; cur = cur.Parent {
+		if cur.Parent == nil {
+			break
+		}
+		isGo := false
+		core.InspectNoLit(cur.Parent.Body, func(n ast.Node) bool {
+			if gs, ok := n.(*ast.GoStmt); ok && core.Unparen(gs.Call.Fun) == ast.Expr(cur.Lit) {
+				isGo = true
+			}
+			return !isGo
+		})
+		if isGo && !(cur.Lit.Pos() <= obj.Pos() && obj.Pos() < cur.Lit.End()) {
+			return false
+		}
+	}
 	info := f.Info()
 	fresh, other := 0, 0
 	root := f
@@ -394,8 +596,19 @@ func c11FreshLocal(f *core.Func, obj types.Object) bool {
 	return fresh > 0 && other == 0
 }
 
+// enclosingLit returns the innermost function literal of lf's body that contains n (lf.Lit itself if none is nested).
+func enclosingLit(s *c11State, lf *core.Func, n ast.Node) *ast.FuncLit {
+	pm := s.parentMap(lf)
+	for cur := pm[n]; cur != nil; cur = pm[cur] {
+		if l, ok := cur.(*ast.FuncLit); ok {
+			return l
+		}
+	}
+	return lf.Lit
+}
+
 func c11(c *core.Check) {
-	c.Explain = "Lock discipline of the shared state, decided for every access in shipped code.  (R1) guarded-by: every read or write of a field in the guarded-by table happens with the guard of the same object certainly held (must-hold lockset over the go/cfg graph; read mode suffices for reads), or in a function all of whose call sites hold it (requirements are propagated through statically resolved calls, through function values of matching type, and through encoding/json, which reads every exported field of the value it is given unless the type marshals itself); fields of a label value are protected by the lock of the owning metric; objects that are provably not yet published are exempt, each by a named reason.  (R2) a field that is ever passed to sync/atomic is accessed only through sync/atomic (no lost increment, no torn read of a datum's value or timestamp).  (R3) the label-set emitter goroutine is spawned only where the spawner holds the metric's read lock (the lock is delegated; C12 decides that it is kept until the emitter has finished).  (R4) the acquired-while-held relation over all mutexes, including acquisitions inside callees, is acyclic.  (R5) every struct field that is a mutex is known to the table, and the unguarded fields of Metric are written only by constructor-phase code.  (R6) no atomic store of a field is fed, within one function, by an atomic load of the same field (load-then-store is not an atomic update).  Not decided: happens-before through channels and WaitGroups, races inside dependencies, atomicity of compound reads across several data."
+	c.Explain = "Lock discipline of the shared state, decided for every access in shipped code.  (R1) guarded-by: every read or write of a field in the guarded-by table happens with the guard of the same object certainly held (must-hold lockset over the go/cfg graph; read mode suffices for reads), or in a function all of whose call sites hold it (requirements are propagated through statically resolved calls, through function values of matching type, and through encoding/json, which reads every exported field of the value it is given unless the type marshals itself); fields of a label value are protected by the lock of the owning metric; objects that are provably not yet published are exempt, each by a named reason.  (R2) a field that is ever passed to sync/atomic is accessed only through sync/atomic (no lost increment, no torn read of a datum's value or timestamp).  (R3) the label-set emitter goroutine is spawned (by a go statement on the method or by a goroutine literal calling it) only where the spawner — or, for a declared helper that is handed the metric, every caller of it — holds the metric's read lock (the lock is delegated; C12 decides that it is kept until the emitter has finished).  (R4) the acquired-while-held relation over all mutexes, including acquisitions inside callees, is acyclic.  (R5) every struct field that is a mutex is known to the table, and the unguarded fields of Metric are written only by constructor-phase code (the listed functions and unexported helpers called from nowhere else).  (R6) no atomic store of a field is fed, within one function, by an atomic load of the same field (load-then-store is not an atomic update).  Not decided: happens-before through channels and WaitGroups, races inside dependencies, atomicity of compound reads across several data."
 	c.Assume = append(c.Assume, "the guarded-by table (printed in the evidence) is the intended protection of each field; it was read from the struct comments and confirmed by reading every access", "aliasing is syntactic: two access paths name the same lock iff they are textually equal", "constructor-phase objects (fresh locals, the metric handed to Store.Add) are not shared")
 	s := &c11State{c: c, fields: map[*types.Var]*c11Guard{}, parents: map[*core.Func]map[ast.Node]ast.Node{}, held: map[*core.Func]*core.Held{}}
 	var table []string
@@ -502,6 +715,23 @@ func c11(c *core.Check) {
 					c.Ok("C11-R1", key, pos(c, a.sel), "delegated to callers: requires a "+a.g.AnyOwner+" lock")
 					continue
 				}
+				// a local that only ever holds an element of a guarded container of some owner object
+				// (lv := m.LabelValues[i]): the lock needed is that object's
+				if own, og, ok := s.derivedOwner(f, identObj(f.Info(), a.base), a.g.AnyOwner); ok {
+					lp := core.PathOf(own)
+					if og.Lock != "" {
+						lp += "." + og.Lock
+					}
+					if core.Holds(set, lp, mode) {
+						c.Ok("C11-R1", key, pos(c, a.sel), "element of "+core.PathOf(own)+"."+og.Field+"; holds "+lp+" ("+core.SetString(set)+")")
+						continue
+					}
+					if owner, idx, isParam := ownerOf(f, identObj(f.Info(), own)); isParam && owner == f && f.Lit == nil {
+						addReq(f, c11Req{param: idx, suffix: og.Lock, mode: mode, why: desc, pos: pos(c, a.sel)})
+						c.Ok("C11-R1", key, pos(c, a.sel), "element of "+core.PathOf(own)+"."+og.Field+"; delegated to callers: requires "+c11ParamName(f, idx)+" lock "+mode)
+						continue
+					}
+				}
 				c.Fail("C11-R1", key, pos(c, a.sel), fmt.Sprintf("%s without the lock of the owning %s held (held here: %s): races with ExpireDatum / GC on a running program's metric", desc, a.g.AnyOwner, core.SetString(set)))
 				continue
 			}
@@ -527,11 +757,24 @@ func c11(c *core.Check) {
 				continue
 			}
 			if owner, idx, isParam := ownerOf(f, baseObj); isParam {
-				if why, ok := c11Fresh[owner.Key+"|param "+c11ParamName(owner, idx)]; ok {
+				if why, ok := c11Fresh[owner.Key+"|"+c11ParamSlot(idx)]; ok {
 					c.Note("C11-R1", key, pos(c, a.sel), "reasoned exception (unpublished object): "+why)
 					continue
 				}
 				if owner == f && f.Lit == nil {
+					// a function that acquires this very lock itself does not rely on its callers for it:
+					// the access is outside (or in too weak a mode for) its own critical section
+					var own *core.LockEv
+					for i, ev := range f.Graph().LockEvents() {
+						if ev.Acquire && ev.Path == lockPath {
+							own = &f.Graph().LockEvents()[i]
+							break
+						}
+					}
+					if own != nil {
+						c.Fail("C11-R1", key, pos(c, a.sel), fmt.Sprintf("%s without %s held in mode %s (held here: %s) although the function takes that lock itself at %s: the access lies outside its critical section, or under the read lock where the write lock is needed, and races with the accesses made under the lock", desc, lockPath, mode, core.SetString(set), pos(c, own.Call)))
+						continue
+					}
 					addReq(f, c11Req{param: idx, suffix: a.g.Lock, mode: mode, why: desc, pos: pos(c, a.sel)})
 					c.Ok("C11-R1", key, pos(c, a.sel), "delegated to callers: requires "+c11ParamName(f, idx)+" lock "+mode)
 					continue
@@ -539,12 +782,6 @@ func c11(c *core.Check) {
 				if owner == f && f.Lit != nil {
 					// a callback's own parameter (e.g. Store.Range's f): nobody holds the object's lock for it
 					c.Fail("C11-R1", key, pos(c, a.sel), fmt.Sprintf("%s in a callback without holding %s (held here: %s): the callback receives the object unlocked, so this access races with every writer that does take the lock (a VM creating or deleting a label value, ExpireDatum)", desc, lockPath, core.SetString(set)))
-					continue
-				}
-			}
-			if baseObj != nil {
-				if why, ok := c11Fresh[f.Key+"|local "+baseObj.Name()]; ok {
-					c.Note("C11-R1", key, pos(c, a.sel), "reasoned exception (unpublished object): "+why)
 					continue
 				}
 			}
@@ -644,6 +881,98 @@ func c11(c *core.Check) {
 	}
 	c.Extra["json_calls_analysed"] = njson
 
+	// R3 spawn sites of the label-set emitter, found before the propagation so that a
+	// spawner that relies on ITS caller's lock hands the requirement on (checked at each call site under R1).
+	// Two shapes: `go m.EmitLabelSets(ch)` and `go func() { … m.EmitLabelSets(ch) … }()` with m captured.
+	type c11Spawn struct {
+		f    *core.Func    // the spawner
+		at   *ast.GoStmt   // the go statement, in f
+		call *ast.CallExpr // the EmitLabelSets call
+		recv ast.Expr      // its receiver
+		lit  *core.Func    // the goroutine literal, nil for the direct form
+		und  string        // why the site cannot be decided
+	}
+	var spawns []c11Spawn
+	spawnCall := map[*ast.CallExpr]bool{}
+	for _, f := range fns {
+		core.InspectNoLit(f.Body, func(n ast.Node) bool {
+			if lit, ok := n.(*ast.FuncLit); ok && lit != f.Lit {
+				return false
+			}
+			gs, ok := n.(*ast.GoStmt)
+			if !ok {
+				return true
+			}
+			if f.CalleeID(gs.Call) == mEmit {
+				spawns = append(spawns, c11Spawn{f: f, at: gs, call: gs.Call, recv: core.RecvExpr(gs.Call)})
+				spawnCall[gs.Call] = true
+				return true
+			}
+			lit, ok := core.Unparen(gs.Call.Fun).(*ast.FuncLit)
+			if !ok {
+				return true
+			}
+			lf := c.Prog.FuncOf[lit]
+			if lf == nil {
+				return true
+			}
+			ast.Inspect(lit.Body, func(m ast.Node) bool {
+				call, ok := m.(*ast.CallExpr)
+				if !ok || lf.CalleeID(call) != mEmit {
+					return true
+				}
+				if _, nested := s.parentMap(lf)[call].(*ast.GoStmt); nested {
+					return true // a go statement of its own inside the literal: found when that literal is visited
+				}
+				sp := c11Spawn{f: f, at: gs, call: call, recv: core.RecvExpr(call), lit: lf}
+				o := identObj(lf.Info(), sp.recv)
+				switch {
+				case c.Prog.FuncOf[lit] != nil && enclosingLit(s, lf, call) != lit:
+					sp.und = "the emitter is called from a function literal nested inside the goroutine literal"
+				case o == nil:
+					sp.und = "the receiver of EmitLabelSets inside the goroutine literal is not a plain variable"
+				case lit.Pos() <= o.Pos() && o.Pos() < lit.End():
+					sp.und = "the metric is a variable of the goroutine literal itself, not one captured from the spawner"
+				}
+				spawns = append(spawns, sp)
+				spawnCall[call] = true
+				return true
+			})
+			return true
+		})
+	}
+	type c11SpawnVerdict struct {
+		sp      c11Spawn
+		ok, und bool
+		detail  string
+	}
+	var spawnVerdicts []c11SpawnVerdict
+	for _, sp := range spawns {
+		v := c11SpawnVerdict{sp: sp}
+		switch {
+		case sp.und != "":
+			v.und, v.detail = true, sp.und
+		case sp.recv == nil:
+			v.und, v.detail = true, "no receiver"
+		default:
+			set, located := s.heldAt(sp.f, sp.at)
+			if !located {
+				v.und, v.detail = true, "go statement not located in the control-flow graph"
+				break
+			}
+			if core.Holds(set, core.PathOf(sp.recv), "R") {
+				v.ok, v.detail = true, "spawned under the metric's read lock"
+				break
+			}
+			// a declared helper that starts the emitter for a metric it is handed: its callers hold the lock
+			if owner, idx, isParam := ownerOf(sp.f, identObj(sp.f.Info(), sp.recv)); isParam && owner == sp.f && sp.f.Lit == nil {
+				addReq(sp.f, c11Req{param: idx, mode: "R", why: "start of the label-set emitter (go EmitLabelSets, which reads Metric.LabelValues)", pos: pos(c, sp.at)})
+				v.ok, v.detail = true, "the spawner holds no lock itself; the read lock of "+c11ParamName(sp.f, idx)+" is required of every caller (one C11-R1 obligation per call site)"
+			}
+		}
+		spawnVerdicts = append(spawnVerdicts, v)
+	}
+
 	// propagate requirements to call sites
 	type site struct {
 		f    *core.Func
@@ -741,18 +1070,22 @@ func c11(c *core.Check) {
 				done[fk+"|"+rk] = true
 				nreq++
 				sites := callSites[f]
+				// what: for messages (uses the identifier); whatKey: for obligation keys (position only)
 				what := "some " + r.any + " lock"
+				whatKey := what
 				if r.any == "" {
 					what = c11ParamName(f, r.param)
+					whatKey = c11ParamSlot(r.param)
 					if r.suffix != "" {
 						what += "." + r.suffix
+						whatKey += "." + r.suffix
 					}
 				}
 				if len(escapes[f]) > 0 {
 					ds := dynSites(f)
 					if len(ds) == 0 {
 						// handed to library code (an HTTP mux, a callback registry): it is called with no mtail lock held
-						c.Fail("C11-R1", f.Key+"|entry point requires "+what+" "+r.mode, r.pos, fmt.Sprintf("%s without %s held: the function is registered as a callback (at %s) and is entered with no lock held, so the access races with the writers that take the lock", r.why, what, pos(c, escapes[f][0])))
+						c.Fail("C11-R1", f.Key+"|entry point requires "+whatKey+" "+r.mode, r.pos, fmt.Sprintf("%s without %s held: the function is registered as a callback (at %s) and is entered with no lock held, so the access races with the writers that take the lock", r.why, what, pos(c, escapes[f][0])))
 						continue
 					}
 					sites = append(sites, ds...)
@@ -762,21 +1095,25 @@ func c11(c *core.Check) {
 					if unexported || r.any != "" && f.Obj != nil && !f.Obj.Exported() {
 						// nobody outside the package can take an unexported mutex, and nobody inside calls this function with it:
 						// it is reached through an interface or from other packages with the lock not held
-						c.Fail("C11-R1", f.Key+"|requires "+what+" "+r.mode, r.pos, fmt.Sprintf("%s without %s held, in a function no caller of which can hold that lock (it is only reached through an interface or from other packages): unsynchronised with the accesses that take the lock", r.why, what))
+						c.Fail("C11-R1", f.Key+"|requires "+whatKey+" "+r.mode, r.pos, fmt.Sprintf("%s without %s held, in a function no caller of which can hold that lock (it is only reached through an interface or from other packages): unsynchronised with the accesses that take the lock", r.why, what))
 						continue
 					}
-					c.Note("C11-R1", f.Key+"|requires "+what+" "+r.mode, r.pos, "no call site in shipped code: exported API that needs the caller to hold the lock ("+r.why+")")
+					c.Note("C11-R1", f.Key+"|requires "+whatKey+" "+r.mode, r.pos, "no call site in shipped code: exported API that needs the caller to hold the lock ("+r.why+")")
 					continue
 				}
 				for _, st := range sites {
-					key := mkKey(st.f, fmt.Sprintf("call of %s needing %s %s", f.Key, what, r.mode))
+					key := mkKey(st.f, fmt.Sprintf("call of %s needing %s %s", f.Key, whatKey, r.mode))
 					set, ok := s.heldAt(st.f, st.call)
 					if !ok {
 						c.Undecided("C11-R1", key, pos(c, st.call), "call not located in the control-flow graph")
 						continue
 					}
+					if spawnCall[st.call] {
+						// delegated lock: decided by R3 at the go statement
+						continue
+					}
 					if st.inGo {
-						// delegated lock: decided by R3
+						c.Undecided("C11-R1", key, pos(c, st.call), fmt.Sprintf("%s is started as a goroutine but relies on its caller to hold %s (%s): a lock held by the spawner is not held by the goroutine unless the spawner waits for it, which this rule does not decide", f.Key, what, r.why))
 						continue
 					}
 					if r.any != "" {
@@ -817,7 +1154,7 @@ func c11(c *core.Check) {
 						continue
 					}
 					if owner, idx, isParam := ownerOf(st.f, ao); isParam {
-						if why, ok := c11Fresh[owner.Key+"|param "+c11ParamName(owner, idx)]; ok {
+						if why, ok := c11Fresh[owner.Key+"|"+c11ParamSlot(idx)]; ok {
 							c.Note("C11-R1", key, pos(c, st.call), "reasoned exception (unpublished object): "+why)
 							continue
 						}
@@ -826,12 +1163,6 @@ func c11(c *core.Check) {
 								changed = true
 							}
 							c.Ok("C11-R1", key, pos(c, st.call), "delegated further to the callers of "+st.f.Key)
-							continue
-						}
-					}
-					if ao != nil {
-						if why, ok := c11Fresh[st.f.Key+"|local "+ao.Name()]; ok {
-							c.Note("C11-R1", key, pos(c, st.call), "reasoned exception (unpublished object): "+why)
 							continue
 						}
 					}
@@ -1197,21 +1528,18 @@ func c11(c *core.Check) {
 		c.Floor("C11-R6", 5)
 	}
 
-	c.Rule("C11-R3", "DELEGATED-LOCK: every `go m.EmitLabelSets(ch)` is executed with m's read lock held by the spawner (EmitLabelSets reads m.LabelValues and takes no lock itself)")
+	c.Rule("C11-R3", "DELEGATED-LOCK: every start of the label-set emitter as a goroutine — `go m.EmitLabelSets(ch)`, or a goroutine literal that calls it on a captured m — is executed with m's read lock held by the spawner, or by every caller of a declared spawner that is handed m (EmitLabelSets reads m.LabelValues and takes no lock itself)")
 	{
-		n3 := 0
-		for _, f := range fns {
-			for _, h := range f.Graph().CallsTo(mEmit) {
-				if !h.InGo {
-					continue
-				}
-				n3++
-				call := h.N.(*ast.CallExpr)
-				recv := core.RecvExpr(call)
-				set, _ := s.heldAt(f, call)
-				key := mkKey(f, "go EmitLabelSets")
-				c.Analysed(f)
-				c.Verdict(recv != nil && core.Holds(set, core.PathOf(recv), "R"), "C11-R3", key, pos(c, call), "spawned under the metric's read lock", "the label-set emitter is started without the metric's read lock held: it iterates m.LabelValues concurrently with a VM appending or removing label values")
+		for _, v := range spawnVerdicts {
+			key := mkKey(v.sp.f, "go EmitLabelSets")
+			c.Analysed(v.sp.f)
+			switch {
+			case v.und:
+				c.Undecided("C11-R3", key, pos(c, v.sp.at), v.detail)
+			case v.ok:
+				c.Ok("C11-R3", key, pos(c, v.sp.at), v.detail)
+			default:
+				c.Fail("C11-R3", key, pos(c, v.sp.at), "the label-set emitter is started without the metric's read lock held: it iterates m.LabelValues concurrently with a VM appending or removing label values")
 			}
 		}
 		c.Floor("C11-R3", 4)
@@ -1455,11 +1783,44 @@ func c11(c *core.Check) {
 		}
 		// constructor-phase writers of unguarded Metric fields
 		ctor := map[string]string{
-			"internal/metrics.NewMetric":   "constructor",
-			"internal/metrics.newMetric":   "constructor",
-			"internal/metrics.(*Metric).SetSource": "takes the write lock; called by the code generator before the program runs",
+			"internal/metrics.NewMetric":                               "constructor",
+			"internal/metrics.newMetric":                               "constructor",
+			"internal/metrics.(*Metric).SetSource":                     "takes the write lock; called by the code generator before the program runs",
 			"internal/runtime/compiler/codegen.(*codegen).VisitBefore": "declares the metric while compiling, before the program runs",
 			"internal/runtime.(*Runtime).CompileAndRun":                "clears Source of hidden-position metrics on the freshly compiled object before registration",
+		}
+		// a function belongs to the constructor phase if the table says so, or if it is an unexported helper that
+		// never escapes as a value and every one of whose (statically resolved) call sites lies in constructor-phase code
+		var ctorPhase func(f *core.Func, depth int) (string, bool)
+		ctorPhase = func(f *core.Func, depth int) (string, bool) {
+			if why, ok := ctor[f.Key]; ok {
+				return why, true
+			}
+			if depth > 4 || f.Lit != nil || f.Obj == nil || f.Obj.Exported() || len(escapes[f]) > 0 || len(callSites[f]) == 0 {
+				return "", false
+			}
+			var from []string
+			for _, st := range callSites[f] {
+				if st.inGo {
+					return "", false
+				}
+				caller := st.f
+				for caller.Parent != nil {
+					caller = caller.Parent
+				}
+				if caller == f {
+					continue
+				}
+				if _, ok := ctorPhase(caller, depth+1); !ok {
+					return "", false
+				}
+				from = append(from, caller.Key)
+			}
+			if len(from) == 0 {
+				return "", false
+			}
+			sort.Strings(from)
+			return "unexported helper called only from constructor-phase code (" + strings.Join(uniq(from), ", ") + ")", true
 		}
 		for _, f := range fns {
 			for fld, nodes := range metricFieldWrites(f) {
@@ -1471,8 +1832,8 @@ func c11(c *core.Check) {
 				for root.Parent != nil {
 					root = root.Parent
 				}
-				_, ok := ctor[root.Key]
-				c.Verdict(ok, "C11-R5", root.Key+"|writes "+fld, pos(c, nodes[0]), "constructor phase: "+ctor[root.Key], "an unguarded field of Metric ("+fld+") is written outside the constructor phase: exporters and the store read it without any lock")
+				why, ok := ctorPhase(root, 0)
+				c.Verdict(ok, "C11-R5", root.Key+"|writes "+fld, pos(c, nodes[0]), "constructor phase: "+why, "an unguarded field of Metric ("+fld+") is written outside the constructor phase: exporters and the store read it without any lock")
 			}
 		}
 		c.Floor("C11-R5", 20)
